@@ -720,6 +720,16 @@ def check_c10(prop, tier, seed, devices):
         base = sym_program(rnd, rnd.randrange(3, 11))
 
         def mk(p, tag):
+            # a .def of an alias that is still bound (which a deletion of the .undef in between creates) is a shape the
+            # property leaves open: not generated
+            bound = set()
+            for l in p:
+                if l["k"] == "def":
+                    if l["n"] in bound:
+                        return
+                    bound.add(l["n"])
+                elif l["k"] == "undef":
+                    bound.discard(l["n"])
             p = copy.deepcopy(p)
             spells = [Spell(case=rnd.choice(CASES3)) for _ in p]
             cases.append(Case(p, tag=tag, spells=spells))
